@@ -13,6 +13,7 @@ import (
 	"go/types"
 	"sort"
 	"strings"
+	"sync"
 
 	"golang.org/x/tools/go/packages"
 	"golang.org/x/tools/go/ssa"
@@ -37,6 +38,8 @@ type Unit struct {
 	Warnings []string
 	Funcs    []string // functions whose bodies were translated (verified or inlined)
 	Trusted  []string // contracts assumed at call sites
+	symCache map[string][]string
+	mu       sync.Mutex
 }
 
 type Exec struct {
@@ -51,8 +54,12 @@ type Exec struct {
 	callOrd map[string]int
 	fset    *token.FileSet
 	// hooks
-	onCall func(fr *frame, c *ssa.CallCommon, callee *ssa.Function, args []Val, st *State, guard string) (handled bool, res Val)
-	maxInline int
+	unitSuffix  string
+	entered     map[int]bool   // loop headers (block index) entered by the top frame in this pass
+	enteredPrev map[int]bool   // ... in earlier passes: loop ordinals count only these
+	knownType   map[string]int // term of an interface value -> its dynamic type id (per-case units)
+	onCall      func(fr *frame, c *ssa.CallCommon, callee *ssa.Function, args []Val, st *State, guard string) (handled bool, res Val)
+	maxInline   int
 }
 
 type retInfo struct {
@@ -86,6 +93,7 @@ type frame struct {
 	id       int
 	specVars map[string]Val // lets
 	rangeIt  map[ssa.Value]*rangeState
+	visited  map[*ssa.BasicBlock]bool
 }
 
 type rangeState struct {
@@ -124,8 +132,12 @@ func (ex *Exec) pos(p token.Pos) string {
 func (ex *Exec) oblige(name, kind, guard, goal, src, where string) *Obligation {
 	o := &Obligation{Name: name, Kind: kind, Guard: guard, Goal: goal, NDecl: len(ex.u.decls), Src: src, Where: where, Expect: Unsat}
 	ex.unit.Obls = append(ex.unit.Obls, o)
-	// assert-then-assume
-	ex.u.fact(implies(guard, goal))
+	// assert-then-assume, for obligations inside the body; exit obligations are independent of each other
+	switch kind {
+	case "ensures", "schema", "frame":
+	default:
+		ex.u.fact(implies(guard, goal))
+	}
 	return o
 }
 
@@ -283,7 +295,7 @@ var frameCounter int
 func (ex *Exec) newFrame(fn *ssa.Function) *frame {
 	frameCounter++
 	return &frame{fn: fn, regs: map[ssa.Value]Val{}, loops: map[*ssa.BasicBlock]*loopRec{}, allocKey: map[*ssa.Alloc]string{},
-		id: frameCounter, params: map[string]Val{}, specVars: map[string]Val{}, rangeIt: map[ssa.Value]*rangeState{}}
+		id: frameCounter, params: map[string]Val{}, specVars: map[string]Val{}, rangeIt: map[ssa.Value]*rangeState{}, visited: map[*ssa.BasicBlock]bool{}}
 }
 
 type edgeIn struct {
@@ -304,7 +316,16 @@ func (ex *Exec) execBody(fr *frame, st *State, guard string) (string, *State, []
 
 	order, back := blockOrder(fn)
 	loops := findLoops(fn, back)
-	ordOf := loopOrdinals(fn, loops)
+	counted := loops
+	if fr.top && len(ex.enteredPrev) > 0 {
+		counted = map[*ssa.BasicBlock]map[*ssa.BasicBlock]bool{}
+		for h, body := range loops {
+			if ex.enteredPrev[h.Index] {
+				counted[h] = body
+			}
+		}
+	}
+	ordOf := loopOrdinals(fn, counted)
 	incoming := map[*ssa.BasicBlock][]edgeIn{}
 	incoming[fn.Blocks[0]] = []edgeIn{{nil, guard, st}}
 
@@ -314,8 +335,12 @@ func (ex *Exec) execBody(fr *frame, st *State, guard string) (string, *State, []
 			continue
 		}
 		delete(incoming, b)
+		fr.visited[b] = true
 		g, s, phiSel := ex.merge(ins, b)
 		if lb, isLoop := loops[b]; isLoop {
+			if fr.top && ex.entered != nil {
+				ex.entered[b.Index] = true
+			}
 			s = ex.enterLoop(fr, b, lb, ordOf[b], g, s)
 		}
 		ex.execBlock(fr, b, g, s, ins, phiSel, func(to *ssa.BasicBlock, eg string, es *State) {
@@ -600,6 +625,11 @@ func (ex *Exec) enterLoop(fr *frame, h *ssa.BasicBlock, body map[*ssa.BasicBlock
 		lr.invs = fr.contract.Loops[ord]
 	}
 	lr.invs = append(lr.invs, ex.autoInvariants(fr, lr)...)
+	if fr.top && fr.contract != nil && contains(fr.contract.Modifies, "newobjects") {
+		// the frame of the function is a two-state invariant: it holds at every loop head
+		e, _ := parseSpec("frameNew()")
+		lr.invs = append(lr.invs, Clause{Label: "frame_new", Expr: e, Src: "frameNew()  (from `modifies newobjects`)", File: fr.contract.File, Line: fr.contract.Line})
+	}
 	// ghost iteration counter
 	lr.kKey = fmt.Sprintf("L!f%d.k%d", fr.id, h.Index)
 	u.keySort(lr.kKey, SInt)
@@ -613,7 +643,7 @@ func (ex *Exec) enterLoop(fr *frame, h *ssa.BasicBlock, body map[*ssa.BasicBlock
 		if err != nil {
 			ex.failf("%s loop %d invariant: %v", fname, ord, err)
 		}
-		ex.oblige(fmt.Sprintf("%s#loop%d-entry:%s", shortFn(fr.fn), ord, clauseLabel(inv, i)), "loop-entry", g, t, inv.Src, ex.clauseWhere(inv))
+		ex.oblige(fmt.Sprintf("%s%s#loop%d-entry:%s", shortFn(fr.fn), ex.sfx(fr), ord, clauseLabel(inv, i)), "loop-entry", g, t, inv.Src, ex.clauseWhere(inv))
 	}
 	// havoc
 	keys := ex.loopModKeys(fr, body)
@@ -623,8 +653,17 @@ func (ex *Exec) enterLoop(fr *frame, h *ssa.BasicBlock, body map[*ssa.BasicBlock
 		ks = append(ks, k)
 	}
 	sort.Strings(ks)
+	precise := ex.loopPrecise(fr, lr, s)
 	for _, k := range ks {
-		if k == "*" {
+		if k == "*new" {
+			u.keySort("next", SInt)
+			ex.havocNewObjects(s2, g, u.get(s, "next"))
+			continue
+		}
+		if strings.HasPrefix(k, "*") {
+			if k != "*" {
+				ex.warn("loop write set contains %s", k)
+			}
 			ex.havocAll(s2)
 			continue
 		}
@@ -634,7 +673,18 @@ func (ex *Exec) enterLoop(fr *frame, h *ssa.BasicBlock, body map[*ssa.BasicBlock
 			}
 		}
 		if _, ok := u.keySorts[k]; !ok {
-			continue // never touched so far: cannot be read later under this name before being registered
+			ex.failf("loop write set: key %s has no sort", k)
+		}
+		if bs, ok := precise[k]; ok {
+			// every write in the loop goes to a loop-invariant object: only those cells are havoced
+			srt := u.keySorts[k]
+			elem := strings.TrimSuffix(strings.TrimPrefix(srt, "(Array Int "), ")")
+			cur := u.get(s2, k)
+			for _, b := range bs {
+				cur = store(cur, b, u.freshConst(k+".at", elem))
+			}
+			u.set(s2, k, srt, cur)
+			continue
 		}
 		u.havoc(s2, k)
 	}
@@ -668,7 +718,7 @@ func (ex *Exec) backEdge(fr *frame, h *ssa.BasicBlock, g string, s *State) {
 		if err != nil {
 			ex.failf("%s loop %d invariant: %v", fr.fn.String(), lr.ord, err)
 		}
-		ex.oblige(fmt.Sprintf("%s#loop%d-preserve:%s", shortFn(fr.fn), lr.ord, clauseLabel(inv, i)), "loop-preserve", g, t, inv.Src, ex.clauseWhere(inv))
+		ex.oblige(fmt.Sprintf("%s%s#loop%d-preserve:%s", shortFn(fr.fn), ex.sfx(fr), lr.ord, clauseLabel(inv, i)), "loop-preserve", g, t, inv.Src, ex.clauseWhere(inv))
 	}
 }
 
@@ -694,7 +744,106 @@ func shortFn(fn *ssa.Function) string {
 
 // autoInvariants: facts the engine maintains for range-over-slice loops (rangeindex idiom).
 func (ex *Exec) autoInvariants(fr *frame, lr *loopRec) []Clause {
-	return nil
+	if fr.contract == nil || len(fr.contract.Foreach) == 0 {
+		return nil
+	}
+	src, dst, ok := detectForeach(lr)
+	if !ok {
+		return nil
+	}
+	var out []Clause
+	for i, t := range fr.contract.Foreach {
+		text := strings.ReplaceAll(strings.ReplaceAll(t.Src, "$src", src), "$dst", dst)
+		e, err := parseSpec(text)
+		if err != nil {
+			ex.failf("foreach invariant %q: %v", text, err)
+		}
+		lbl := t.Label
+		if lbl == "" {
+			lbl = fmt.Sprint(i + 1)
+		}
+		out = append(out, Clause{Label: "foreach_" + lbl, Expr: e, Src: text, File: t.File, Line: t.Line})
+	}
+	return out
+}
+
+// addrText renders a FieldAddr chain as contract text (out.Lhs, n.Type.Params).
+func addrText(v ssa.Value) (string, bool) {
+	switch x := v.(type) {
+	case *ssa.FieldAddr:
+		st := deref(x.X.Type())
+		base, ok := addrText(x.X)
+		if !ok {
+			return "", false
+		}
+		return base + "." + st.Underlying().(*types.Struct).Field(x.Field).Name(), true
+	case *ssa.UnOp:
+		if x.Op != token.MUL {
+			return "", false
+		}
+		if a, ok := x.X.(*ssa.Alloc); ok && a.Comment != "" {
+			return a.Comment, true
+		}
+		return addrText(x.X)
+	}
+	return "", false
+}
+
+// detectForeach recognises `for _, v := range SRC { DST = append(DST, f(v)) }`.
+func detectForeach(lr *loopRec) (src, dst string, ok bool) {
+	h := lr.header
+	iff, isIf := h.Instrs[len(h.Instrs)-1].(*ssa.If)
+	if !isIf {
+		return
+	}
+	cond, isBin := iff.Cond.(*ssa.BinOp)
+	if !isBin {
+		return
+	}
+	call, isCall := cond.Y.(*ssa.Call)
+	if !isCall {
+		return
+	}
+	if b, isB := call.Call.Value.(*ssa.Builtin); !isB || b.Name() != "len" {
+		return
+	}
+	ld, isLd := call.Call.Args[0].(*ssa.UnOp)
+	if !isLd {
+		return
+	}
+	src, ok = addrText(ld.X)
+	if !ok {
+		return
+	}
+	ok = false
+	n := 0
+	for b := range lr.blocks {
+		for _, in := range b.Instrs {
+			st, isSt := in.(*ssa.Store)
+			if !isSt {
+				continue
+			}
+			ac, isC := st.Val.(*ssa.Call)
+			if !isC {
+				continue
+			}
+			if bi, isB := ac.Call.Value.(*ssa.Builtin); !isB || bi.Name() != "append" {
+				continue
+			}
+			d1, ok1 := addrText(st.Addr)
+			a0, isLd := ac.Call.Args[0].(*ssa.UnOp)
+			if !ok1 || !isLd {
+				continue
+			}
+			d2, ok2 := addrText(a0.X)
+			if ok2 && d1 == d2 {
+				dst = d1
+				n++
+			}
+		}
+	}
+	ok = n == 1
+	return
 }
 
 // specEnv builds the evaluation environment of the function being executed.
@@ -737,6 +886,7 @@ func (ex *Exec) specEnv(fr *frame, cur *State, lr *loopRec) *SpecEnv {
 	if lr != nil {
 		env.entry = lr.entrySt
 		env.vars["$k"] = intVal(cur.vars[lr.kKey])
+		ex.roleVars(fr, lr, cur, env)
 		for k, v := range lr.vars {
 			env.vars[k] = v
 		}
@@ -797,8 +947,12 @@ func (ex *Exec) execBlock(fr *frame, b *ssa.BasicBlock, g string, s *State, ins 
 		case *ssa.If:
 			c := ex.value(fr, in.Cond, s)
 			ct := u.define("c", SBool, c.T)
-			edge(b.Succs[0], u.define("e", SBool, and(g, ct)), s)
-			edge(b.Succs[1], u.define("e", SBool, and(g, not(ct))), s.clone())
+			if ct != "false" {
+				edge(b.Succs[0], u.define("e", SBool, and(g, ct)), s)
+			}
+			if ct != "true" {
+				edge(b.Succs[1], u.define("e", SBool, and(g, not(ct))), s.clone())
+			}
 			return
 		case *ssa.Jump:
 			edge(b.Succs[0], g, s)
@@ -864,7 +1018,7 @@ func (ex *Exec) value(fr *frame, v ssa.Value, s *State) Val {
 		ex.u.keySort(key, sortOf(t))
 		return Val{Typ: x.Type(), Loc: &Loc{Kind: LLocal, Key: key, Typ: t}}
 	case *ssa.Function:
-		return Val{T: intLit(int64(1000000 + ex.u.typeID(types.NewPointer(x.Signature))) ), Typ: x.Type(), Fields: nil, Tuple: nil, Loc: nil}.asFunc(x)
+		return Val{T: intLit(int64(1000000 + ex.u.typeID(types.NewPointer(x.Signature)))), Typ: x.Type(), Fields: nil, Tuple: nil, Loc: nil}.asFunc(x)
 	case *ssa.Builtin:
 		return Val{Typ: x.Type()}
 	}
@@ -989,6 +1143,11 @@ func (ex *Exec) instr(fr *frame, in ssa.Instruction, g string, s *State) string 
 					u.fact(implies(g, ex.wf(v, newState())))
 				} else {
 					u.fact(implies(g, ex.wf(v, s)))
+					// the entry heap is closed under its own allocation counter, whatever was written since
+					if l.Kind == LField && !isStruct(l.Typ) {
+						ev := u.load(newState(), l)
+						u.fact(ex.wf(ev, newState()))
+					}
 				}
 			}
 			fr.regs[in] = v
@@ -1049,6 +1208,13 @@ func (ex *Exec) instr(fr *frame, in ssa.Instruction, g string, s *State) string 
 			val = Val{T: x.T, Typ: in.AssertedType}
 		} else {
 			ok = eq(iTyp(x.T), intLit(int64(u.typeID(in.AssertedType))))
+			if kt, known := ex.knownType[x.T]; known {
+				if kt == u.typeID(in.AssertedType) {
+					ok = "true"
+				} else {
+					ok = "false"
+				}
+			}
 			switch sortOfSafe(in.AssertedType) {
 			case SInt:
 				val = Val{T: iRef(x.T), Typ: in.AssertedType}
@@ -1114,7 +1280,7 @@ func (ex *Exec) instr(fr *frame, in ssa.Instruction, g string, s *State) string 
 		switch xt := in.X.Type().Underlying().(type) {
 		case *types.Slice:
 			g = u.define("g", SBool, and(g, app("<=", "0", i.T), app("<", i.T, sLen(x.T))))
-			fr.regs[in] = Val{Typ: in.Type(), Loc: &Loc{Kind: LElem, Base: sArr(x.T), Idx: plus(sOff(x.T), i.T), Owner: elemKey(xt.Elem()), Typ: xt.Elem()}}
+			fr.regs[in] = Val{Typ: in.Type(), Loc: &Loc{Kind: LElem, Base: sArr(x.T), Idx: cellIdx(sOff(x.T), i.T), Owner: elemKey(xt.Elem()), Typ: xt.Elem()}}
 		case *types.Pointer:
 			at := xt.Elem().Underlying().(*types.Array)
 			fr.regs[in] = Val{Typ: in.Type(), Loc: &Loc{Kind: LElem, Base: ex.term(x, "array pointer"), Idx: i.T, Owner: elemKey(at.Elem()), Typ: at.Elem()}}
@@ -1126,7 +1292,6 @@ func (ex *Exec) instr(fr *frame, in ssa.Instruction, g string, s *State) string 
 		x := ex.value(fr, in.X, s)
 		i := ex.value(fr, in.Index, s)
 		if sortOfSafe(in.X.Type()) == SStr {
-			u.declareFun("strAt", []string{SStr, SInt}, SInt)
 			fr.regs[in] = Val{T: app("strAt", x.T, i.T), Typ: in.Type()}
 			return g
 		}
@@ -1171,7 +1336,6 @@ func (ex *Exec) instr(fr *frame, in ssa.Instruction, g string, s *State) string 
 			}
 			return g
 		}
-		u.declareFun("strAt", []string{SStr, SInt}, SInt)
 		fr.regs[in] = Val{T: app("strAt", x.T, i.T), Typ: in.Type()}
 		return g
 	case *ssa.Range:
@@ -1514,7 +1678,6 @@ func (ex *Exec) nextInstr(fr *frame, in *ssa.Next, g string, s *State) string {
 		return g
 	}
 	// string
-	u.declareFun("strAt", []string{SStr, SInt}, SInt)
 	i := u.freshConst("rng.i", SInt)
 	last := s.vars[rs.key]
 	u.fact(implies(and(g, ok), and(app("<", last, i), app("<", i, app("strlen", rs.x.T)))))
@@ -1522,4 +1685,303 @@ func (ex *Exec) nextInstr(fr *frame, in *ssa.Next, g string, s *State) string {
 	s.vars[rs.key] = ite(ok, i, last)
 	fr.regs[in] = Val{Typ: in.Type(), Tuple: []Val{{T: ok, Typ: tBool}, {T: i, Typ: tInt}, {T: r, Typ: types.Typ[types.Rune]}}}
 	return g
+}
+
+// roleVars binds $i (loop counter) and $n (its bound) read off the header's condition, so that
+// invariants do not depend on the names of locals. For the range-over-slice idiom the counter is
+// rangeindex+1, i.e. the index of the element about to be visited; $v names are not provided.
+func (ex *Exec) roleVars(fr *frame, lr *loopRec, cur *State, env *SpecEnv) {
+	h := lr.header
+	for _, in := range h.Instrs {
+		if nx, ok := in.(*ssa.Next); ok {
+			if rs := fr.rangeIt[nx.Iter]; rs != nil {
+				if t, live := cur.vars[rs.key]; live {
+					if rs.isMap {
+						env.vars["$visited"] = Val{T: t, Typ: types.NewArray(tBool, -1)}
+					} else {
+						env.vars["$pos"] = intVal(t)
+					}
+				}
+			}
+		}
+	}
+	iff, ok := h.Instrs[len(h.Instrs)-1].(*ssa.If)
+	if !ok {
+		return
+	}
+	cond, ok := iff.Cond.(*ssa.BinOp)
+	if !ok {
+		return
+	}
+	stored := func(a *ssa.Alloc) bool {
+		for _, r := range *a.Referrers() {
+			if st, ok := r.(*ssa.Store); ok && st.Addr == a && lr.blocks[st.Block()] {
+				return true
+			}
+		}
+		return false
+	}
+	// trace an operand to (alloc, +1?) or to a value defined outside the loop
+	trace := func(v ssa.Value) (a *ssa.Alloc, plus1 bool, outside ssa.Value) {
+		if b, ok := v.(*ssa.BinOp); ok && b.Op == token.ADD {
+			if c, ok := b.Y.(*ssa.Const); ok && c.Value != nil && c.Int64() == 1 {
+				if u, ok := b.X.(*ssa.UnOp); ok && u.Op == token.MUL {
+					if al, ok := u.X.(*ssa.Alloc); ok {
+						return al, true, nil
+					}
+				}
+			}
+		}
+		if u, ok := v.(*ssa.UnOp); ok && u.Op == token.MUL {
+			if al, ok := u.X.(*ssa.Alloc); ok {
+				return al, false, nil
+			}
+		}
+		if in, ok := v.(ssa.Instruction); ok && !lr.blocks[in.Block()] {
+			return nil, false, v
+		}
+		if _, ok := v.(*ssa.Const); ok {
+			return nil, false, v
+		}
+		if _, ok := v.(*ssa.Parameter); ok {
+			return nil, false, v
+		}
+		return nil, false, nil
+	}
+	valOf := func(v ssa.Value) (Val, bool) {
+		a, p1, out := trace(v)
+		if a != nil {
+			key, ok := fr.allocKey[a]
+			if !ok {
+				return Val{}, false
+			}
+			t, live := cur.vars[key]
+			if !live {
+				return Val{}, false
+			}
+			if p1 {
+				t = plus(t, "1")
+			}
+			return Val{T: t, Typ: deref(a.Type())}, true
+		}
+		if out != nil {
+			if c, ok := out.(*ssa.Const); ok {
+				return ex.constVal(c), true
+			}
+			if r, ok := fr.regs[out]; ok {
+				return r, true
+			}
+		}
+		return Val{}, false
+	}
+	xa, _, _ := trace(cond.X)
+	ya, _, _ := trace(cond.Y)
+	var iv, nv ssa.Value
+	switch {
+	case xa != nil && stored(xa):
+		iv, nv = cond.X, cond.Y
+	case ya != nil && stored(ya):
+		iv, nv = cond.Y, cond.X
+	default:
+		return
+	}
+	if v, ok := valOf(iv); ok {
+		env.vars["$i"] = v
+	}
+	if v, ok := valOf(nv); ok {
+		env.vars["$n"] = v
+	}
+}
+
+// loopPrecise: for heap-field keys written in the loop only by stores through loop-invariant
+// object pointers, the list of those object terms (so that only these cells are havoced).
+func (ex *Exec) loopPrecise(fr *frame, lr *loopRec, st *State) map[string][]string {
+	whole := map[string]bool{}
+	bases := map[string][]string{}
+	var blocks []*ssa.BasicBlock
+	for b := range lr.blocks {
+		blocks = append(blocks, b)
+	}
+	sort.Slice(blocks, func(i, j int) bool { return blocks[i].Index < blocks[j].Index })
+	for _, b := range blocks {
+		for _, in := range b.Instrs {
+			if stx, ok := in.(*ssa.Store); ok {
+				ks := ex.addrKeys(fr, stx.Addr)
+				base, ok := ex.storeBases(fr, lr, stx.Addr, st, ks)
+				for i, k := range ks {
+					if ok && strings.HasPrefix(k, "H$") && base[i] != "" {
+						bases[k] = appendUniq(bases[k], base[i])
+					} else {
+						whole[k] = true
+					}
+				}
+				continue
+			}
+			if call, ok := in.(*ssa.Call); ok {
+				if ks, pr, ok := ex.callPrecise(fr, lr, &call.Call, st); ok {
+					for i, k := range ks {
+						if pr != nil && pr[i] != "" && !strings.Contains(pr[i], "dummy!") {
+							bases[k] = appendUniq(bases[k], pr[i])
+						} else {
+							whole[k] = true
+						}
+					}
+					continue
+				}
+			}
+			tmp := map[string]bool{}
+			ex.instrModKeys(fr, in, tmp, map[*ssa.Function]bool{})
+			for k := range tmp {
+				whole[k] = true
+			}
+		}
+	}
+	out := map[string][]string{}
+	for k, bs := range bases {
+		if !whole[k] {
+			out[k] = bs
+		}
+	}
+	return out
+}
+
+// storeBases: the object term each key of a field store is written at, when the root pointer is loop-invariant.
+func (ex *Exec) storeBases(fr *frame, lr *loopRec, addr ssa.Value, st *State, keys []string) ([]string, bool) {
+	fa, ok := addr.(*ssa.FieldAddr)
+	if !ok {
+		return nil, false
+	}
+	var path []string
+	cur := ssa.Value(fa)
+	for {
+		f, ok := cur.(*ssa.FieldAddr)
+		if !ok {
+			break
+		}
+		stt := deref(f.X.Type())
+		path = append([]string{stt.Underlying().(*types.Struct).Field(f.Field).Name()}, path...)
+		cur = f.X
+	}
+	root, ok := ex.invariantVal(fr, lr, cur, st)
+	if !ok || root.T == "" {
+		return nil, false
+	}
+	rootT := deref(cur.Type())
+	if rootT == nil || !isStruct(rootT) {
+		return nil, false
+	}
+	owner := ex.regOwner(rootT)
+	// leaves under the path, canonicalised like leafKeys does, remembering the base of each
+	t := rootT
+	for _, p := range path {
+		t, _ = fieldType(t, p)
+	}
+	byKey := map[string]string{}
+	for _, lf := range leaves(t) {
+		full := append(append([]string{}, path...), lf.Path...)
+		l := &Loc{Kind: LField, Base: root.T, Owner: owner, Path: full, Typ: lf.Typ}
+		cl, _ := ex.u.canonLoc(l, rootT)
+		byKey[heapKey(cl.Owner, cl.Path)] = cl.Base
+	}
+	out := make([]string, len(keys))
+	for i, k := range keys {
+		out[i] = byKey[k]
+	}
+	return out, true
+}
+
+// invariantVal: the value of v if it cannot change during the loop.
+func (ex *Exec) invariantVal(fr *frame, lr *loopRec, v ssa.Value, st *State) (Val, bool) {
+	switch x := v.(type) {
+	case *ssa.Const:
+		return ex.constVal(x), true
+	case *ssa.Parameter, *ssa.FreeVar:
+		r, ok := fr.regs[v]
+		return r, ok
+	case *ssa.UnOp:
+		if x.Op == token.MUL {
+			if a, ok := x.X.(*ssa.Alloc); ok {
+				for _, r := range *a.Referrers() {
+					if sx, ok := r.(*ssa.Store); ok && sx.Addr == a && lr.blocks[sx.Block()] {
+						return Val{}, false
+					}
+				}
+				key, ok := fr.allocKey[a]
+				if !ok {
+					return Val{}, false
+				}
+				if pv, ok := ex.ptrLocals(st)[key]; ok {
+					return pv, true
+				}
+				t, live := st.vars[key]
+				if !live {
+					return Val{}, false
+				}
+				return Val{T: t, Typ: deref(a.Type())}, true
+			}
+		}
+	}
+	if in, ok := v.(ssa.Instruction); ok && !lr.blocks[in.Block()] {
+		r, ok := fr.regs[v]
+		return r, ok
+	}
+	return Val{}, false
+}
+
+// callPrecise: keys and object terms of a contracted callee's modifies clause, with loop-invariant
+// arguments substituted (others are dummies, which make the affected keys whole-array).
+func (ex *Exec) callPrecise(fr *frame, lr *loopRec, c *ssa.CallCommon, st *State) (keys []string, precise []string, ok bool) {
+	if c.IsInvoke() {
+		return nil, nil, false
+	}
+	callee := c.StaticCallee()
+	if callee == nil {
+		return nil, nil, false
+	}
+	fc, has := ex.db.Funcs[ssaFuncKey(callee)]
+	if !has || !fc.HasMod {
+		return nil, nil, false
+	}
+	env := &SpecEnv{ex: ex, vars: map[string]Val{}, cur: st, old: st, pkg: ex.pkgByPath(fc.Pkg)}
+	names := ex.paramNames(fc, callee, callee.Signature)
+	for i, n := range names {
+		if i >= len(c.Args) {
+			break
+		}
+		t := c.Args[i].Type()
+		if isStruct(t) {
+			continue
+		}
+		if v, ok := ex.invariantVal(fr, lr, c.Args[i], st); ok && v.T != "" {
+			env.vars[n] = v
+		} else {
+			env.vars[n] = Val{T: "dummy!" + n, Typ: t}
+		}
+	}
+	keys = append(keys, "next")
+	precise = append(precise, "")
+	for _, it := range fc.Modifies {
+		if strings.TrimSpace(it) == "newobjects" {
+			keys = append(keys, "*new")
+			precise = append(precise, "")
+			continue
+		}
+		ks, pr := ex.modItem(it, env)
+		for i, k := range ks {
+			keys = append(keys, k)
+			if pr != nil {
+				precise = append(precise, pr[i])
+			} else {
+				precise = append(precise, "")
+			}
+		}
+	}
+	return keys, precise, true
+}
+
+func (ex *Exec) sfx(fr *frame) string {
+	if fr.top {
+		return ex.unitSuffix
+	}
+	return ""
 }
